@@ -66,6 +66,26 @@ func TestC08Huge(t *testing.T) {
 		}
 	})
 }
+// TestC07Huge: an all-targets subscriber denied a target of 10000-70000 leaves (part "huge"; each case costs seconds).
+func TestC07Huge(t *testing.T) {
+	if !vstat.Enabled("C07") {
+		t.Skip()
+	}
+	rec := vstat.New("C07", "huge")
+	rec.RunRapid(t, func(rt *rapid.T) {
+		sc := genHugeACLScenario(rt)
+		rec.Current(sc)
+		st, err := run(t, sc, "C07")
+		rec.Case(sc, true, append(st.labels(), "denied-target-with-10000-or-more-leaves")...)
+		if err != nil {
+			class := "oracle"
+			if f, ok := err.(*failure); ok && f.prop == "PANIC" {
+				class = "panic"
+			}
+			rt.Fatalf("%s", rec.Fail(sc, class, "%v", err))
+		}
+	})
+}
 func TestC14Sub(t *testing.T) { propTest(t, "C14", "subscribers") }
 
 // TestReplay re-runs a saved scenario without the library.
